@@ -75,6 +75,20 @@ def resolve_modes(modes, nx, ny, dom, halo):
     return tuple(modes)
 
 
+def effective_modes(modes, nxe, nye):
+    """the documented acceptance rule: mode counts must be even; a request that exceeds the padded grid in EITHER
+    direction is replaced by the whole padded grid in BOTH; otherwise the surplus must be even in both directions.
+    Returns the retained counts, or None where the documented answer is ValueError."""
+    nlx, nly = modes
+    if nlx % 2 or nly % 2:
+        return None
+    if nlx > nxe or nly > nye:
+        return (nxe, nye)
+    if (nxe - nlx) % 2 or (nye - nly) % 2:
+        return None
+    return (nlx, nly)
+
+
 def solver():
     from bldfm.solver import steady_state_transport_solver
 
@@ -110,6 +124,15 @@ def fields(seed_rng, ny, nx):
     yy, xx = np.meshgrid(np.arange(ny), np.arange(nx), indexing="ij")
     sm = 1.0 + np.cos(2 * np.pi * xx / nx + 0.3) * np.sin(2 * np.pi * yy / ny + 0.1)
     return {"random": r, "sparse": sp, "smooth": sm}
+
+
+def scaled_fields(seed_rng, ny, nx):
+    """the same kind of field in other units: trace-gas magnitudes (mol m-2 s-1 of CH4 / N2O are 1e-9..1e-12, every
+    cell far below any absolute 'is it zero' threshold) and very large numbers (counts per km2)"""
+    r = seed_rng.standard_normal((ny, nx))
+    yy, xx = np.meshgrid(np.arange(ny), np.arange(nx), indexing="ij")
+    sm = 1.0 + np.cos(2 * np.pi * xx / nx + 0.3) * np.sin(2 * np.pi * yy / ny + 0.1)
+    return {"trace": 3e-11 * r, "trace-positive": 2e-12 * sm, "huge": 1e9 * sm}
 
 
 def impulse(ny, nx, j, i):
